@@ -123,6 +123,10 @@ func (d *ShapeDesc) BuildShape() s2.Shape {
 type G struct {
 	T     *core.Tape
 	Small bool // keep drawn codec values small (complete fault enumeration needs short encodings)
+	// NoCells: draw geometry with plain arithmetic only (no cell-id functions, no snapping, no
+	// validation): used for cold-process runs, where nothing but object construction may touch the
+	// library before the concurrent burst
+	NoCells bool
 	// Anchor: when set, loops and polygons are drawn near this point with sizes comparable to
 	// AnchorRadius, so that objects of one world overlap, nest and cross (relations that are
 	// not trivially false)
@@ -151,6 +155,9 @@ func New() *G { return &G{T: &core.T} }
 func (g *G) Point() s2.Point {
 	t := g.T
 	mode := t.Uint(8)
+	if g.NoCells && (mode == 5 || mode == 6) {
+		mode = 0
+	}
 	z := 2*t.Float() - 1
 	phi := 2 * math.Pi * t.Float()
 	r := math.Sqrt(math.Max(0, 1-z*z))
@@ -274,7 +281,7 @@ func (g *G) LoopDesc(maxV int) ShapeDesc {
 // maybeSnap snaps every vertex to a cell centre of one drawn level when that keeps the loop valid.
 func (g *G) maybeSnap(pts []s2.Point) []s2.Point {
 	t := g.T
-	if !t.Chance(250) {
+	if !t.Chance(250) || g.NoCells {
 		return pts
 	}
 	lvl := 8 + int(t.Uint(23))
@@ -371,7 +378,7 @@ func (g *G) PolygonDesc(maxV int) ShapeDesc {
 			}
 		}
 	}
-	if t.Chance(200) {
+	if t.Chance(200) && !g.NoCells {
 		lvl := 10 + int(t.Uint(21))
 		snapped := make([][]s2.Point, len(loops))
 		ok := true
